@@ -86,6 +86,14 @@ type Session struct {
 
 type Obj struct{ Id int64 }
 
+// Note is called from a conc branch as req.Note(holdq(req.Id)): the argument is computed (and the branch parked)
+// before the receiver is looked up, so a branch that outlives its request would note its id on another request's object
+func (o *Obj) Note(v int64) {
+	if d, ok := D.Load().(*drv); ok && d != nil {
+		d.o.Emit(obs.Event{"ev": "argpair", "a": o.Id, "b": v})
+	}
+}
+
 // a result map handed back to a caller, with a copy taken at that moment
 type keptMap struct {
 	q    int64
@@ -147,6 +155,10 @@ func isoText() string {
 begin
   enter(req.Id, "own", 1)
   chk(req.Id, holdq(req.Id))
+  conc {
+    req.Note(holdq(req.Id))
+    boomcq(req.Id)
+  }
   if failq(req.Id) { boom() }
   if condq(req.Id) { if notbool() { x = 1 } }
   if retq(req.Id) { return req.Id }
@@ -161,6 +173,10 @@ rule "pb" "tag-3" salience 2 begin
 end
 rule "pc" "tag-4" salience 1 begin
   peek(req.Id, "kc", kc.Id)
+  if retq(req.Id) { return req.Id }
+end
+rule "pd" "tag-5" salience 0 begin
+  peek(req.Id, "kd", kd.Id)
   if retq(req.Id) { return req.Id }
 end
 `
@@ -193,6 +209,14 @@ func (d *drv) api() map[string]interface{} {
 			defer d.mu.Unlock()
 			return d.reqs[q] != nil && d.reqs[q].Fail == "boom"
 		},
+		"boomcq": func(q int64) {
+			d.mu.Lock()
+			f := d.reqs[q] != nil && d.reqs[q].Fail == "concboom"
+			d.mu.Unlock()
+			if f {
+				panic("conc branch fails")
+			}
+		},
 		"condq": func(q int64) bool {
 			d.mu.Lock()
 			defer d.mu.Unlock()
@@ -214,6 +238,8 @@ func (d *drv) api() map[string]interface{} {
 			return d.reqs[q] == nil || !d.reqs[q].NoRet
 		},
 		"boom": func() { panic("boom") },
+		// an api OBJECT: requests may inject their own object under the same name
+		"kd": &Obj{Id: -7},
 		"peek": func(q int64, key string, val int64) {
 			d.o.Emit(obs.Event{"ev": "peek", "q": q, "key": key, "val": val})
 		},
@@ -328,7 +354,8 @@ func (d *drv) request(r *Req, cv bool) {
 	if tn == nil {
 		tn = []string{"*"}
 	}
-	d.o.Emit(obs.Event{"ev": "arrive", "q": r.Q, "keys": keys, "names": tn, "fail": r.Fail != "" || d.expectPeekFail(r)})
+	fl := r.Fail != "" || d.expectPeekFail(r)
+	d.o.Emit(obs.Event{"ev": "arrive", "q": r.Q, "keys": keys, "names": tn, "fail": fl, "failmay": !fl && d.apiKeyMayBeGone(r)})
 	data := map[string]interface{}{"req": &Obj{Id: r.Q}}
 	for _, k := range r.Keys {
 		data[k] = &Obj{Id: r.Q}
@@ -508,6 +535,20 @@ func (d *drv) expectPeekFail(r *Req) bool {
 	return !(has["ka"] && has["kb"] && has["kc"])
 }
 
+// a request that does not inject "kd" finds the pool's api object there - unless an earlier request on the same
+// instance injected its own object under that name (the release removes the name altogether): error or not is open
+func (d *drv) apiKeyMayBeGone(r *Req) bool {
+	if d.sess.Kind != "isolation" && d.sess.Kind != "capacity" {
+		return false
+	}
+	for _, k := range r.Keys {
+		if k == "kd" {
+			return false
+		}
+	}
+	return true
+}
+
 func (d *drv) burst(reqs []Req, cv bool, extra func()) {
 	var wg sync.WaitGroup
 	for i := range reqs {
@@ -616,7 +657,7 @@ func runSession(s *Session, quiet time.Duration, seed int64) ([]obs.Event, bool)
 	d.pool = p
 	rules := s.Rules
 	if s.Kind == "isolation" || s.Kind == "capacity" {
-		rules = []RuleV{{"own", 1}, {"pa", 2}, {"pb", 3}, {"pc", 4}}
+		rules = []RuleV{{"own", 1}, {"pa", 2}, {"pb", 3}, {"pc", 4}, {"pd", 5}}
 	}
 	o.Emit(obs.Event{"ev": "pnew", "min": s.Min, "max": s.Max, "rules": rules, "model": s.Model})
 	tmo := time.Duration(s.Timeout) * time.Second
